@@ -436,24 +436,83 @@ open Dcg.Proofs.PatternLit Dcg.Proofs.Escape
 
 /-- **The pattern literal is ONE token, for every pattern.** The text that
 `model/pydantic/types.py pattern_literal` writes (`Proofs/PatternLit.patternLiteral`: `r'…'` when the
-pattern has no single quote, no control character and no dangling backslash, else `repr()`;
+pattern has no single quote, no dangling backslash and `pattern.isprintable()`, else `repr()`;
 compared character by character with the real function on every run, campaign `patlit.text`),
 followed by anything that does not start with a quote (the generator writes `)` or `,`), is read by
 the lexer as one complete string literal — raw or cooked — whose value is the pattern, and the
 lexer resumes exactly behind it: no pattern can end the literal early, leave it open or run into the
-rest of the line. -/
-theorem pattern_literal_one_token (pr : Char → Bool) (p rest : List Char)
-    (h1 : rest.head? ≠ some '\'') (h2 : rest.head? ≠ some '"') :
+rest of the line. `pr` is `str.isprintable` of one character, a PARAMETER; the only thing the proof
+needs from it is `printableOK pr`: LF, CR and NUL — the three characters a raw short literal cannot
+hold — are not printable. That hypothesis is necessary (`pattern_literal_needs_printableOK`) and
+holds of CPython's table (`cpython_printable_ok`, hence `pattern_literal_one_token_cpython`). -/
+theorem pattern_literal_one_token (pr : Char → Bool) (hpr : printableOK pr = true)
+    (p rest : List Char) (h1 : rest.head? ≠ some '\'') (h2 : rest.head? ≠ some '"') :
     strToken (patternLiteral pr p ++ rest) = some (p, rest) :=
-  strToken_patternLiteral pr p rest h1 h2
+  strToken_patternLiteral pr hpr p rest h1 h2
+
+/-- **CPython's `str.isprintable` satisfies both side conditions** (decided by the kernel on the
+table `Gen/Printable.nonPrintable`, regenerated from the interpreter on every run): none of LF / CR /
+NUL is printable (`printableOK`), and none of the ten characters at which `str.splitlines` splits
+is (`noBoundaryPrintable`). -/
+theorem cpython_printable_ok :
+    printableOK cpythonPrintable = true ∧ noBoundaryPrintable cpythonPrintable = true := by
+  decide +kernel
+
+/-- `pattern_literal_one_token` for the predicate the code really calls: no hypothesis left, EVERY
+pattern. -/
+theorem pattern_literal_one_token_cpython (p rest : List Char)
+    (h1 : rest.head? ≠ some '\'') (h2 : rest.head? ≠ some '"') :
+    strToken (patternLiteral cpythonPrintable p ++ rest) = some (p, rest) :=
+  pattern_literal_one_token _ cpython_printable_ok.1 p rest h1 h2
 
 /-- non-vacuity: both quote kinds in one pattern (the shape `^['"].*['"]$`), followed by `)` -/
-example : strToken (patternLiteral (fun _ => true) "^['\"].*['\"]$".toList ++ [')']) =
+example : strToken (patternLiteral cpythonPrintable "^['\"].*['\"]$".toList ++ [')']) =
     some ("^['\"].*['\"]$".toList, [')']) :=
-  pattern_literal_one_token _ _ _ (by decide) (by decide)
+  pattern_literal_one_token_cpython _ _ (by decide) (by decide)
 
 /-- non-vacuity, raw branch: backslashes stay single -/
-example : patternLiteral (fun _ => true) "^\\d+\"$".toList = "r'^\\d+\"$'".toList := by decide
+example : patternLiteral cpythonPrintable "^\\d+\"$".toList = "r'^\\d+\"$'".toList := by decide
+
+/-- non-vacuity of the hypothesis for a predicate that is not the table -/
+example : printableOK (fun c => 32 ≤ c.toNat) = true := by decide
+
+/-- **The hypothesis on the printability predicate is minimal**: whenever `printableOK pr` fails
+there is a pattern (one of LF / CR / NUL alone) whose written literal is NOT one token. -/
+theorem pattern_literal_needs_printableOK (pr : Char → Bool) (h : printableOK pr = false) :
+    ∃ p, strToken (patternLiteral pr p ++ [')']) ≠ some (p, [')']) :=
+  printableOK_necessary pr h
+
+/-- non-vacuity: the predicate "everything is printable" -/
+example : printableOK (fun _ => true) = false := by decide
+
+/-- **No line boundary in the written literal** (the repaired finding C01-pattern-line-boundary).
+When `pr` calls none of the ten characters printable at which Python's `str.splitlines` splits
+(LF VT FF CR FS GS RS, U+0085, U+2028, U+2029 — where isort and black cut a module into lines),
+the text `pattern_literal` writes holds none of them: in the raw branch every character of the
+pattern is printable, in the `repr()` branch they are escaped. So the literal stays on the line
+the template put it on, whatever the pattern. -/
+theorem pattern_literal_has_no_line_boundary (pr : Char → Bool)
+    (hpr : noBoundaryPrintable pr = true) (p : List Char) :
+    ∀ c ∈ patternLiteral pr p, c ∉ lineBoundaries :=
+  patternLiteral_no_line_boundary hpr p
+
+/-- the same for CPython's table: no hypothesis left -/
+theorem pattern_literal_has_no_line_boundary_cpython (p : List Char) :
+    ∀ c ∈ patternLiteral cpythonPrintable p, c ∉ lineBoundaries :=
+  pattern_literal_has_no_line_boundary _ cpython_printable_ok.2 p
+
+/-- non-vacuity: the former witness `a<U+0085>b` now goes to `repr()` … -/
+example : patternLiteral cpythonPrintable ['a', Char.ofNat 0x85, 'b'] = "'a\\x85b'".toList := by
+  decide
+
+/-- … and the former rule (raw unless quote / dangling backslash / ASCII control character: the
+predicate "not an ASCII control character") does NOT satisfy the side condition: it wrote U+0085
+verbatim. The full-strength statement without the hypothesis is false. -/
+theorem former_rule_wrote_line_boundary :
+    noBoundaryPrintable (fun c => !(c.toNat < 32 || c.toNat = 127)) = false ∧
+    Char.ofNat 0x85 ∈ patternLiteral (fun c => !(c.toNat < 32 || c.toNat = 127))
+      ['a', Char.ofNat 0x85, 'b'] ∧ Char.ofNat 0x85 ∈ lineBoundaries := by
+  decide
 
 /-- **A raw literal cannot hold its own delimiter** — for EITHER quote `q`, every pattern without a
 backslash that contains `q`, every continuation: `r q p q` is not read back as `p`. Whatever
